@@ -22,36 +22,48 @@ RowsSeq(T) == [i \in 1..N |-> T[i]]
 HiFee == MaxOf(FeeLevels)
 
 \* ---- tables ---------------------------------------------------------------------------------
-VarRows == CASE VarMode = "full"  -> {r \in Row : r.acct <= 1 /\ r.fee \in {0, BaseFee, HiFee}}
-             [] VarMode = "small" -> {r \in Row : r.acct <= 1 /\ r.fee \in {0, BaseFee, HiFee} /\ (~r.home => (r.perf /\ ~r.mev))}
-             [] OTHER             -> Row
-AbsentRow == [home |-> FALSE, acct |-> 0, mev |-> FALSE, fee |-> 0, perf |-> FALSE]
-BgRows == {AbsentRow, BaseRow, [BaseRow EXCEPT !.mev = TRUE, !.fee = HiFee]}
+\* (a trait without the account that carries it is not a row of its own: CurOf drops it)
+Wf(r) == (r.mevH => r.home) /\ (r.mevT => r.acct # 0)
+VarRows == CASE VarMode \in {"full", "small"} ->
+                    {r \in Row : Wf(r) /\ r.acct <= 1 /\ r.fee \in {0, BaseFee, HiFee}
+                                 /\ (~r.home => (r.perf /\ ~r.mevT /\ r.fee = BaseFee))}
+             [] OTHER             -> {r \in Row : Wf(r)}
+AbsentRow == [home |-> FALSE, acct |-> 0, mevH |-> FALSE, mevT |-> FALSE, fee |-> 0, perf |-> FALSE]
+BgRows == {AbsentRow, BaseRow, [BaseRow EXCEPT !.mevH = TRUE, !.mevT = TRUE, !.fee = HiFee]}
+          \cup (IF VarMode = "full" THEN {[BaseRow EXCEPT !.mevH = TRUE], [BaseRow EXCEPT !.mevT = TRUE, !.fee = HiFee]} ELSE {})
 VarPairs == IF VarMode = "full" THEN {<<1, 2>>, <<2, N>>} ELSE {<<1, 2>>}
 GSetup ==
   \E p \in VarPairs, r1 \in VarRows, r2 \in VarRows, bg \in BgRows :
     LET T == [v \in Vals |-> IF v = p[1] THEN r1 ELSE IF v = p[2] THEN r2 ELSE bg] IN
     Setup(T) /\ H("Setup", [rows |-> RowsSeq(T)])
 GSetupRandom ==
-  \E T \in {[v \in Vals |-> RandomElement(Row)]} : Setup(T) /\ H("Setup", [rows |-> RowsSeq(T)])
-GRereg(V) == \E v \in V, a \in 0..2, mv \in BOOLEAN :
-  /\ (a # cur[v].acct \/ mv # cur[v].mev)
-  /\ Rereg(v, a, mv) /\ H("Rereg", [v |-> v, acct |-> a, mev |-> mv])
-\* cover mode: validator 1 moves to another address / flips its MEV trait after the snapshot
-GReregC == \E c \in {<<2, cur[1].mev>>, <<cur[1].acct, ~cur[1].mev>>} :
-  /\ cur[1].home /\ cur[1].acct = 1
-  /\ Rereg(1, c[1], c[2]) /\ H("Rereg", [v |-> 1, acct |-> c[1], mev |-> c[2]])
+  \E T \in {[v \in Vals |-> RandomElement({r \in Row : Wf(r)})]} : Setup(T) /\ H("Setup", [rows |-> RowsSeq(T)])
+GRereg(V) == \E v \in V, a \in 0..2, mh \in BOOLEAN, mt \in BOOLEAN :
+  /\ (mh => cur[v].home) /\ (mt => a # 0)
+  /\ (a # cur[v].acct \/ mh # cur[v].mevH \/ mt # cur[v].mevT)
+  /\ Rereg(v, a, mh, mt) /\ H("Rereg", [v |-> v, acct |-> a, mevH |-> mh, mevT |-> mt])
+\* cover mode: after the snapshot validator 1 (both accounts) moves to another address, or moves its traits to the
+\* account on the other chain (flips them if they are equal)
+GReregC == \E k \in {1, 2} :
+  LET c == cur[1]
+      n == IF k = 1 THEN [acct |-> 2, mh |-> c.mevH, mt |-> c.mevT]
+           ELSE IF c.mevH # c.mevT THEN [acct |-> c.acct, mh |-> c.mevT, mt |-> c.mevH]
+           ELSE [acct |-> c.acct, mh |-> ~c.mevH, mt |-> ~c.mevT] IN
+  /\ c.home /\ c.acct = 1
+  /\ Rereg(1, n.acct, n.mh, n.mt) /\ H("Rereg", [v |-> 1, acct |-> n.acct, mevH |-> n.mh, mevT |-> n.mt])
 GResnap == Resnap /\ H("Resnap", [w |-> 0])
 
 \* ---- requests ---------------------------------------------------------------------------------
-Sched == << <<FALSE, 0>>, <<TRUE, 0>>, <<FALSE, 1>>, <<TRUE, 1>>, <<FALSE, 4>>, <<TRUE, 3>> >>
+\* <<chain, MEV relay enforced, block time>>
+Sched == << <<"t", FALSE, 0>>, <<"t", TRUE, 0>>, <<"h", TRUE, 0>>, <<"t", TRUE, 1>>, <<"h", TRUE, 1>>,
+            <<"t", FALSE, 4>>, <<"h", FALSE, 3>>, <<"t", TRUE, 3>> >>
 GAssignSched ==
   LET k == NAct("Assign") + 1 IN
   /\ k <= Len(Sched)
-  /\ Assign(1 + (k % 2), Sched[k][1], Sched[k][2])
-  /\ H("Assign", [s |-> 1 + (k % 2), mev |-> Sched[k][1], t |-> Sched[k][2]])
-GAssign(S, M, Ts) == \E s \in S, mv \in M, t \in Ts :
-  Assign(s, mv, t) /\ H("Assign", [s |-> s, mev |-> mv, t |-> t])
+  /\ Assign(Sched[k][1], 1 + (k % 2), Sched[k][2], Sched[k][3])
+  /\ H("Assign", [c |-> Sched[k][1], s |-> 1 + (k % 2), mev |-> Sched[k][2], t |-> Sched[k][3]])
+GAssign(C, S, M, Ts) == \E c \in C, s \in S, mv \in M, t \in Ts :
+  Assign(c, s, mv, t) /\ H("Assign", [c |-> c, s |-> s, mev |-> mv, t |-> t])
 
 \* ---- queue ------------------------------------------------------------------------------------
 GPut(A) == \E k \in Kinds : \E s \in (IF k = "slc" THEN Senders ELSE {0}) : \E a \in A, ne \in BOOLEAN :
@@ -63,7 +75,7 @@ EstimateManyQ(Q, n, id, g) == IF n = 0 THEN Q
 \* validators 1..n submit g for message id (atomic Estimate steps in the trace)
 GEstimateN == \E id \in 1..nextId, g \in Gases, n \in {EstN - 1, EstN} :
   /\ queue' = EstimateManyQ(queue, n, id, g) /\ res' = "ok"
-  /\ UNCHANGED <<tabs, nextId, nrows>>
+  /\ UNCHANGED <<tabs, nextId, nrows, queueH>>
   /\ H("EstimateN", [id |-> id, g |-> g, n |-> n])
 GEndBlock == \E w \in 1..3 : EndBlock /\ H("EndBlock", [w |-> w])
 GDeliver == \E id \in 1..nextId : Deliver(id) /\ H("Deliver", [id |-> id])
@@ -86,7 +98,7 @@ GPutX(A) == \E k \in Kinds : \E s \in (IF k = "slc" THEN Senders ELSE {0}) :
             \E a \in A, stage \in GenStage, proc \in GenProc, g \in Gases :
   /\ ((stage \notin {"sub", "elected"} \/ Family = "mix" \/ GateMsgs > 2) => g = MinOf(Gases))
   /\ queue' = PutXQ(k, s, a, stage, proc, g) /\ nextId' = nextId + 1 /\ res' = "put"
-  /\ UNCHANGED <<tabs, nrows>>
+  /\ UNCHANGED <<tabs, nrows, queueH>>
   /\ H("PutX", [kind |-> k, s |-> s, a |-> a, stage |-> stage, proc |-> proc, g |-> g, n |-> EstN])
 
 NMsgs == NAct("PutX") + NAct("Put") + NAct("Assign")
@@ -95,24 +107,24 @@ GNext ==
          IF hist = <<>> THEN GSetup
          ELSE IF Last.act = "Query" THEN FALSE
          ELSE \/ (Last.act = "Setup" /\ GReregC)
-              \/ (Last.act = "Rereg" /\ GResnap)
+              \/ (Last.act = "Rereg" /\ Last.args.acct # 2 /\ GResnap)
               \/ GAssignSched
               \/ (NAct("Assign") = Len(Sched) /\ GQuery1)
     [] Family = "gate" ->
          IF Last.act = "Query" THEN FALSE
-         ELSE \/ (NMsgs < GateMsgs /\ (GPutX({1, 2}) \/ GAssign(Senders, {FALSE}, {0, 1})))
+         ELSE \/ (NMsgs < GateMsgs /\ (GPutX({1, 2}) \/ GAssign({"t"}, Senders, {FALSE}, {0, 1})))
               \/ (NMsgs > 0 /\ GQuery1)
     [] OTHER ->
          IF hist = <<>> THEN GSetupRandom \/ GResnap
          ELSE \/ GRereg({1, 2}) \/ GResnap
-              \/ GAssign(Senders, BOOLEAN, Times)
+              \/ GAssign(Chains, Senders, BOOLEAN, Times)
               \/ GPut({1, 2}) \/ GPutX({1, 2})
               \/ GEstimateN \/ GEndBlock \/ GDeliver \/ GFail \/ GQuery
 
 GInit == Init /\ hist = <<>>
 \* real assignments are kept apart from messages put with the same content
-GView == <<Last, res, cur, snap, fee, perf, queue, nextId, {i \in DOMAIN hist : hist[i].act = "Assign"}>>
-GConstr == Len(hist) <= MaxOps /\ Cardinality(queue) <= MaxQ
+GView == <<Last, res, cur, snap, fee, perf, queue, queueH, nextId, {i \in DOMAIN hist : hist[i].act = "Assign"}>>
+GConstr == Len(hist) <= MaxOps /\ Cardinality(queue) <= MaxQ /\ Cardinality(queueH) <= MaxQ
 \* cover mode: emit from the dequeued state (once per distinct state), complete histories only
 GNextC == (IF Last.act = "Query" THEN PrintT(<<"HIST", ToJson(hist)>>) ELSE TRUE) /\ GNext
 \* simulate mode: TLC evaluates invariants on every candidate successor, the next-state relation only on the
